@@ -1230,7 +1230,8 @@ def r01r(rep, F):
 
 
 def run(rep):
-    units = P.geometric_units() + P.multilevel_units() + P.base_units()
+    units = P.geometric_units() + P.multilevel_units() + P.base_units() + [facts.src('base', 'goals', 'src', g) for g in
+                                                                          ('GoalRegion.cpp', 'GoalState.cpp', 'GoalStates.cpp')]
     F = facts.load_units(units)
     rep.units.update(units)
     rep.functions.update(f.key for f in F.functions if f.file.endswith('.cpp'))
@@ -1274,3 +1275,5 @@ def run(rep):
     from rules import c01_informed
     c01_informed.r01p(rep, F)
     c01_informed.r01q(rep, F)
+    c01_informed.r01t(rep, F)
+    c01_informed.r01u(rep, F)
